@@ -260,7 +260,8 @@ def group_normal_form(repo, col, R="R-C11-groups"):
                 if s_.kind == "mcall" and s_.key.name == "update" and s_.base.op == "attr" and s_.base.name == "groups" and \
                         s_.value is not None and len(s_.value.args) == 2:
                     d = s_.value.args[1]
-                    vals = [x for x in ex.stores if x.kind == "sub" and x.base.key() == d.key() and x.value is not None]
+                    accs = {id(y.node) for y in d.walk() if y.op == "dictacc" and y.node is not None}
+                    vals = [x for x in ex.stores if x.kind == "sub" and x.value is not None and (x.base.key() == d.key() or id(x.node) in accs)]
                 else:
                     continue
             else:
@@ -401,8 +402,10 @@ def _named(repo, col, R="R-C11-filter"):
     col.check(ok, R, vi, "a View's edge table = the pointer's edge table restricted to the edges in view", "ptr_edges.loc[self._edges_in_view]",
               f"edges = {e_.value.short(80) if e_ else None}", node=e_.node if e_ else vi.node)
     gr = st.get("groups")
-    ok = gr is not None and gr.value.op == "dictcomp" and T.find(gr.value, lambda x: x.op == "mcall" and x.name == "intersect1d") is not None and \
-        T.find(gr.value, lambda x: x.op == "attr" and x.name == "groups" and x.args[0].op == "param" and x.args[0].name == "pointer") is not None
+    from sa.terms import fuse_comprehensions as _fuse_g
+    grv = _fuse_g(gr.value) if gr is not None else None      # a dictionary filled in a loop is the comprehension
+    ok = gr is not None and grv.op == "dictcomp" and T.find(grv, lambda x: x.op == "mcall" and x.name == "intersect1d") is not None and \
+        T.find(grv, lambda x: x.op == "attr" and x.name == "groups" and x.args[0].op == "param" and x.args[0].name == "pointer") is not None
     col.check(ok, R, vi, "a View's groups = the pointer's groups intersected with the rows in view", "np.intersect1d(v, self._nodes_in_view)",
               f"groups = {gr.value.short(80) if gr else None}", node=gr.node if gr else vi.node)
     # order: indices in view are set before anything that reads them
